@@ -55,6 +55,12 @@ needs them.  The laws:
   schema.*    the same through Schema.extend / Schema.is_compatible and through
               pg.Object subclasses overriding a field (3 layouts: same keys,
               a field only in the base, a field only in the child)
+  derived.*   the same for the specs the library derives from declarations
+              (driver 5): annotation + default of a parameter (pg.typing.signature,
+              Signature.to_schema / annotate, pg.functor, pg.symbolize) or of a
+              pg.Object class attribute carry a default they accept; a class
+              attribute that overrides the default of an inherited field only
+              narrows the field of the base class
 
 Case ids end in the *input class* of the refuting value: the innermost
 constraint of the rejecting spec that says no (`diag`: int-max, list-min-size,
@@ -974,6 +980,45 @@ def modifiers(a, full=True):
   return out
 
 
+_ENUM_POOL = {'I': ['1', '2', '3', '4'], 'S': ["'a'", "'b'", "'c'", "'d'"],
+              'F': ['2.5', '3.5', '4.5'], 'B': ['True', 'False'], 'N': ['None'],
+              'O': ['A()', 'B()', 'A(x=5)']}
+# one letter per candidate: I int, S str, F float, B bool (an int), N None,
+# O symbolic object (B is a subclass of A).
+_ENUM_PATTERNS_QUICK = ['ISI', 'SIS', 'IIS', 'SII', 'ISS', 'SSI', 'ISF', 'FIS', 'BSI', 'SBI',
+                        'INSI', 'ISIS', 'IISI', 'SISI', 'OSO', 'ISNI']
+_ENUM_PATTERNS_MORE = ['IFS', 'SIF', 'FSI', 'ISB', 'IBS', 'BIS', 'NISI', 'ISIN', 'SSIS', 'ISII',
+                       'IIIS', 'SIII', 'ISSI', 'IFSI', 'BSBI', 'SOO', 'OOS', 'ISFSI', 'SISIS']
+
+
+def enum_of(pattern):
+  """The Enum description with one candidate per letter of `pattern`."""
+  pool = {k: list(v) for k, v in _ENUM_POOL.items()}
+  if 'B' in pattern:
+    pool['I'] = pool['I'][1:]          # (True == 1: no candidate twice.)
+  return Enum([pool[ch].pop(0) for ch in pattern])
+
+
+def mixed_enums(thorough):
+  """Enums whose candidates have unrelated types (no type check on the value
+  then, all the listed candidates are acceptable): 3 to 5 candidates with the
+  odd one out at every position, with bool / float / None / objects of related
+  classes among them; noneable / default / frozen variants with the default and
+  the frozen value at the odd position and elsewhere."""
+  out = []
+  pats = _ENUM_PATTERNS_QUICK + (_ENUM_PATTERNS_MORE if thorough else [])
+  for i, p in enumerate(pats):
+    a = enum_of(p)
+    if thorough or i < 3:
+      out += modifiers(a, full=thorough)
+      odd = a['values'][1]
+      out += [mod(a, default=odd), mod(a, frozen=odd), mod(a, frozen=a['values'][0])]
+    else:
+      out.append(a)
+  # (`mixed`: the quick tier of the extension drivers takes every 6th of these.)
+  return [mod(a, mixed=n) for n, a in enumerate(out)]
+
+
 def atoms(tier):
   thorough = tier == 'thorough'
   out = []
@@ -998,6 +1043,7 @@ def atoms(tier):
     out += modifiers(a, full=thorough)
   out.append(Enum(["'a'", "'b'"], default="'a'"))
   out.append(Enum(["'a'", "'b'", "'c'"], default="'a'", frozen="'b'"))
+  out += mixed_enums(thorough)
   out += modifiers(Any())
   out += [Any(transform='tr_id'), Any(default='None')]
   for c in ('A', 'B', 'C', 'P', 'Q', 'K'):
@@ -2141,8 +2187,8 @@ def _drv_extend(tier, seed, part):
                  'child that was applied to values before' +
                  (' -- children with a user transform' if part else
                   ' -- children without user transform'), scope='')
-  U = Universe(tier, seed, want=lambda a: not has_regex(a),
-               n_random=n_random(tier, 30, 300))
+  U = Universe(tier, seed, n_random=n_random(tier, 30, 300),
+               want=lambda a: not has_regex(a) and (tier != 'quick' or a.get('mixed', 0) % 6 == 0))
   n = len(U.specs)
   r = rng(seed, 'c04-extend')
   r2 = rng(seed, 'c04-extend-applied')
@@ -2365,7 +2411,7 @@ def field_specs(tier, seed):
             Type('B'), Callable([Int(), Float()]), Callable(returns=Str()), Object('K'),
             Dict([('p', Int())], noneable=True), Union([Str(frozen="'a'"), Int()]),
             Union([Int(None, 0), Bool()]), Union([Type('P'), Callable([Int()])]),
-            Enum(['1', '2']), Int(frozen='1', noneable=True)]:
+            Enum(['1', '2']), Int(frozen='1', noneable=True), enum_of('ISI'), enum_of('SIS')]:
     out.append(a)
   # fields with a user transform, with / without a default (the default makes
   # the constructor apply the spec before the class / schema is extended).
@@ -2644,7 +2690,336 @@ def _check_classes(rec, c, b, ec, eb, layout, xs):
   return 1
 
 
-DRIVERS = [drv_apply, drv_compat, drv_extend, drv_extend_transform, drv_schema]
+# ---------------------------------------------------------------------------
+# Driver 5: value specs that the library derives from Python declarations.
+# ---------------------------------------------------------------------------
+#
+# A value spec does not only come from a constructor call: the library builds
+# specs from a type annotation plus a default value (parameters of a callable:
+# pg.typing.signature / Signature.to_schema / pg.functor / pg.symbolize with
+# auto typing; annotated attributes of a pg.Object class) and re-derives the
+# spec of an inherited field when a subclass gives the field a new default as a
+# plain class attribute.  The statement holds for these specs as for any other:
+# the default they carry is acceptable to them, and a field re-derived in a
+# subclass (schema inheritance) only narrows the field of the base class.
+# Whether the library refuses a declaration (TypeError / ValueError / KeyError)
+# or accepts it is not part of the claim; what it hands out when it accepts is.
+
+import inspect  # pylint: disable=g-import-not-at-top,g-bad-import-order
+import typing  # pylint: disable=g-import-not-at-top,g-bad-import-order
+
+NS['typing'] = typing
+_SK = ('str', None)
+
+
+def py_annotations():
+  """(annotation expression, description of the spec it stands for): the
+  description only serves to pool candidate defaults and to name input classes."""
+  return [
+      ('int', Int()), ('float', Float()), ('str', Str()), ('bool', Bool()),
+      ('typing.Any', Any()), ('list', List(Any())), ('dict', Dict()),
+      ('typing.List[int]', List(Int())), ('typing.Optional[int]', Int(noneable=True)),
+      ('typing.Union[int, str]', Union([Int(), Str()])),
+      ('typing.Tuple[int, str]', Tuple([Int(), Str()])),
+      ('typing.Tuple[int, ...]', Tuple(Int())), ('typing.Dict[str, int]', Dict([(_SK, Int())])),
+      ('A', Object('A')), ('typing.Type[A]', Type('A')),
+      ('typing.Callable[[int], int]', Callable([Int()], returns=Int())),
+      ("typing.Literal['a', 'b']", Enum(["'a'", "'b'"])),
+      ("typing.Literal[1, 'a', 2]", Enum(['1', "'a'", '2'])),
+      ('typing.Optional[typing.List[int]]', List(Int(), noneable=True)),
+      ('typing.Sequence[int]', Union([List(Int()), Tuple(Int())])),
+      ('typing.List[typing.Union[int, str]]', List(Union([Int(), Str()]))),
+      ('typing.Dict[str, typing.List[int]]', Dict([(_SK, List(Int()))])),
+  ]
+
+
+def spec_annotations(tier, seed):
+  """Value specs written as annotations (`x: pg.typing.Int(min_value=1) = 0`)."""
+  out = [Int(), Int(0), Int(0, 5), Int(2, 3), Int(None, 0), Int(default='1'), Int(0, default='7'),
+         Int(noneable=True), Int(nn_ctor=True), Int(frozen='1'), Int(0, 5, frozen='5'),
+         Int(frozen='1', noneable=True), Float(), Float(0.0, 1.0), Float(default='1'),
+         Float(0.0, 5.0, frozen='2'), Str(), Str(default="'a'"), Str(frozen="'a'"), Bool(),
+         Bool(frozen='True'), Any(), Any(default='1'), Any(frozen='1'),
+         Enum(["'a'", "'b'"]), Enum(["'a'", "'b'", "'c'"], default="'a'"),
+         Enum(["'a'", "'b'"], frozen="'b'"), enum_of('ISI'), enum_of('SIS'),
+         mod(enum_of('ISI'), frozen="'a'"),
+         List(Int()), List(Int(0), 1, 2), List(Int(), default='[1]'), List(Int(), frozen='[1]'),
+         Tuple(Int(), 1, 3), Tuple([Int(), Str()]), Tuple([Int(), Str()], frozen="(1, 'a')"),
+         Dict(), Dict([('p', Int())]), Dict([('p', Int(default='1'))]),
+         Dict([('p', Int(0)), ('q', Str(noneable=True))]), Dict([(_SK, Int(0))]),
+         Dict([('p', Int())], frozen="{'p': 1}"),
+         Object('A'), Object('B'), Object('A', frozen='A(x=5)'), Type('A'), Type('A', frozen='B'),
+         Union([Int(0), Str()]), Union([Float(0.0, 1.0), Int()]), Union([Int(), Str()], frozen='1'),
+         Callable(), Callable([Int()]), Callable([Int()], frozen='f1'),
+         List(Int(), transform='tr_list'), Dict([('p', Int())], transform='tr_id'),
+         Any(transform='va_mark'), List(Int(), transform='va_mark'), List(Any(transform='va_mark'))]
+  if tier == 'thorough':
+    out += [a for a in atoms(tier) + containers(tier) + nested(tier) if not has_regex(a)][::7]
+  r = rng(seed, 'c04-derived')
+  for _ in range(n_random(tier, 6, 80)):
+    a = rand_spec(r, r.choice([0, 1, 2]))
+    if not has_regex(a):
+      out.append(a)
+  return out
+
+
+# name -> (source declaring the spec from {ann} and {x}, expression of the derived spec)
+_DERIVED = {
+    'signature-arg': ('def fn(x: {ann} = {x}): pass\n',
+                      't.signature(fn, auto_typing=True).args[0].value_spec'),
+    'class-field': ('class C(pg.Object):\n  x: {ann} = {x}\n', "C.__schema__['x'].value"),
+    'signature-kwonly-arg': ('def fn(a: int = 0, *args, x: {ann} = {x}): pass\n',
+                             't.signature(fn, auto_typing=True).kwonlyargs[0].value_spec'),
+    'signature-schema': ('def fn(a: int = 0, x: {ann} = {x}, **kwargs): pass\n',
+                         't.Dict(t.signature(fn, auto_typing=True).to_schema())'),
+    'functor-field': ('def fn(x: {ann} = {x}): pass\nF = pg.functor(auto_typing=True)(fn)\n',
+                      "F.__schema__['x'].value"),
+    'symbolized-class-field': ('class S:\n  def __init__(self, x: {ann} = {x}): pass\n'
+                               'W = pg.symbolize(S, auto_typing=True)\n',
+                               "W.__schema__['x'].value"),
+    'class-schema': ("class C(pg.Object):\n  a: int = 0\n  x: {ann} = {x}\n",
+                     't.Dict(C.__schema__)'),
+    # the default comes from the signature, the spec from a declaration.
+    'annotated-signature': ("def fn(x={x}): pass\nsig = t.signature(fn, auto_typing=False)\n"
+                            "sig.annotate([('x', {ann})])\n", 'sig.args[0].value_spec'),
+    'functor-declared-field': ("def fn(x={x}): pass\nF = pg.functor([('x', {ann})])(fn)\n",
+                               "F.__schema__['x'].value"),
+}
+_DERIVED_ID = {'signature-arg': 'signature-parameter',
+               'signature-kwonly-arg': 'signature-parameter'}
+# name -> source of Base (field x: {ann}) and Child (class attribute x = {x}).
+_OVERRIDES = {
+    'subclass': 'class Base(pg.Object):\n  x: {ann}\nclass Child(Base):\n  x = {x}\n',
+    'grandchild': ('class Base(pg.Object):\n  x: {ann}\n  y: int = 0\n'
+                   "class Mid(Base):\n  z: str = 's'\nclass Child(Mid):\n  x = {x}\n"),
+    'subclass-of-members-base': ("@pg.members([('x', {ann})])\nclass Base(pg.Object): pass\n"
+                                 "class Child(Base):\n  z: str = 's'\n  x = {x}\n"),
+    'subclass-redeclaring-other-field': (
+        'class Base(pg.Object):\n  x: {ann}\n  y: t.Int(min_value=0) = 0\n'
+        'class Child(Base):\n  y: t.Int(min_value=0, max_value=9) = 1\n  x = {x}\n'),
+}
+
+
+def default_candidates(a, spec, n_rej=6):
+  """Value expressions to declare as default of a spec like `a`: rejected ones
+  (one per kind of value + the first boundary values of the pool), two that it
+  holds as they are and one that it accepts by conversion."""
+  rej, ok, kinds, conv = [], [], set(), None
+  for x in list(dict.fromkeys(vals(a) + CORE)):
+    if _SELF_EQ_ONLY.search(x):
+      continue
+    v = ev(x)
+    if is_missing(v):
+      continue
+    f0 = fp(v)
+    try:
+      r = spec.apply(v)
+    except Exception:  # pylint: disable=broad-except
+      vk = vkind(v)
+      if vk not in kinds or len(rej) < 3:
+        kinds.add(vk)
+        rej.append(x)
+      continue
+    if fp(r) == f0:
+      if len(ok) < 2:
+        ok.append(x)
+    elif conv is None:
+      conv = x
+  return rej[:n_rej] + ok + ([conv] if conv else [])
+
+
+def _pick(table, turn, tier, n_fixed):
+  names = list(table)
+  if tier != 'quick':
+    return names
+  rest = names[n_fixed:]
+  return names[:n_fixed] + [rest[turn % len(rest)]]
+
+
+def _declare(src):
+  ns = dict(NS)
+  exec(src, ns)  # pylint: disable=exec-used
+  return ns
+
+
+def _self_consistent(rec, cid, key, s, wit):
+  """The default a derived spec carries is acceptable to it, is accepted again
+  and maps to itself; applying it does not change the spec."""
+  d = s.default
+  if is_missing(d):
+    rec.case(cid, key, True, nontrivial=False)
+    return
+  before = R(s)
+  try:
+    r = s.apply(copy.deepcopy(d), allow_partial=True)
+    r2 = s.apply(copy.deepcopy(r), allow_partial=True)
+    ok = fp(r) == fp(r2) and R(s) == before
+    msg = (f'{R(s)}: apply(default) = {R(r)}, applied again = {R(r2)}; the spec afterwards: '
+           f'{R(s)}')
+  except Exception as ex:  # pylint: disable=broad-except
+    ok, msg = False, f'{before} rejects its own default {R(d)}: {type(ex).__name__}: {ex}'
+  rec.case(cid, key, ok, msg, wit)
+
+
+_W_DEFAULT = ('import copy\nif s is not None and MV != s.default:\n'
+              '  r = s.apply(copy.deepcopy(s.default), allow_partial=True)\n'
+              '  r2 = s.apply(copy.deepcopy(r), allow_partial=True)\n'
+              '  assert type(r2) is type(r) and pg.eq(r2, r), (r, r2)\n')
+
+
+def drv_derived(tier, seed):
+  rec = Recorder('C04', 'specs derived from declarations (annotation + default of a parameter / '
+                 'of a class attribute; class attribute overriding the default of an inherited '
+                 'field): own default acceptable; the inherited field only narrows', scope='')
+  anns = [(e, a, False) for e, a in py_annotations()]
+  seen = {e for e, _, _ in anns}
+  for a in spec_annotations(tier, seed):
+    e = to_expr(a)
+    if e in seen:
+      continue
+    seen.add(e)
+    try:
+      ev(e)
+    except OK_ERRORS:
+      continue
+    anns.append((e, a, True))
+  n_decl = n_spec = n_over = 0
+  for ann, a, is_spec in anns:
+    k = a['k']
+    try:
+      twin = ev('t.ValueSpec.from_annotation(' + ann + ', auto_typing=True)')
+    except Exception as ex:  # pylint: disable=broad-except
+      rec.case('derived.from-annotation', ann, False,
+               f'from_annotation({ann}) raised {type(ex).__name__}: {ex}',
+               pre(ann) + f'import typing\nt.ValueSpec.from_annotation({ann}, auto_typing=True)\n')
+      continue
+    _self_consistent(rec, 'derived.default-accepted/from-annotation', ann, twin,
+                     pre(ann) + 'import typing\n'
+                     f's = t.ValueSpec.from_annotation({ann}, auto_typing=True)\n' + _W_DEFAULT)
+    xs = default_candidates(a, twin, 5 if tier == 'quick' else 12)
+    pool = list(dict.fromkeys(vals(a) + CORE))
+    if tier == 'quick':
+      pool = pool[:24] + CORE[:6]
+    for x in xs:
+      v = ev(x)
+      # the quick tier: the first way / layout of each table for every pair, one
+      # of the others in turn (a choice that does not depend on the seed).
+      turn = zlib.crc32((ann + x).encode())
+      ways = _pick(_DERIVED, turn, tier, 2)
+      layouts = _pick(_OVERRIDES, turn, tier, 1)
+      # ---- annotation + default -> spec.
+      for name, (src, get) in _DERIVED.items():
+        if name not in ways:
+          continue
+        if name.startswith('class') and (inspect.isfunction(v) or isinstance(v, property)):
+          continue      # a function in a class body is a method, not a default.
+        src = src.format(ann=ann, x=x)
+        head = pre(ann, x) + 'import typing\n'
+        wit = fit(head + 'try:\n' + ''.join('  ' + ln + '\n' for ln in src.splitlines()) +
+                  f'  s = {get}\nexcept (TypeError, ValueError, KeyError):\n  s = None\n' +
+                  _W_DEFAULT, (name, ann, x))
+        n_decl += 1
+        try:
+          s = eval(get, _declare(src))  # pylint: disable=eval-used
+        except Exception:  # pylint: disable=broad-except
+          rec.case(f'derived.refused/{name}', (ann, x), True, nontrivial=False)
+          continue
+        n_spec += 1
+        _self_consistent(rec, 'derived.default-accepted/' + _DERIVED_ID.get(name, name),
+                         (name, ann, x), s, wit)
+      # ---- class attribute overriding the default of an inherited field.
+      if inspect.isfunction(v) or isinstance(v, property):
+        continue
+      for name, src in _OVERRIDES.items():
+        if name not in layouts or (name == 'subclass-of-members-base' and not is_spec):
+          continue
+        src = src.format(ann=ann, x=x)
+        head = pre(ann, x) + 'import typing\n'
+        decl = ('try:\n' + ''.join('  ' + ln + '\n' for ln in src.splitlines()) +
+                '  ok = True\nexcept (TypeError, ValueError, KeyError):\n  ok = False\n')
+        n_decl += 1
+        try:
+          ns = _declare(src)
+        except Exception:  # pylint: disable=broad-except
+          rec.case(f'derived.refused/class-attribute-in-{name}', (ann, x), True, nontrivial=False)
+          continue
+        n_over += 1
+        fb, fx = ns['Base'].__schema__['x'].value, ns['Child'].__schema__['x'].value
+        key = (name, ann, x)
+        cid = 'derived.class-attribute-override.'
+        _self_consistent(
+            rec, cid + 'default-accepted', key, fx,
+            fit(head + decl + "s = Child.__schema__['x'].value if ok else None\n" + _W_DEFAULT,
+                key))
+        # the field of the base class is what it was.
+        fresh = _declare(src.split('class Child' if 'class Mid' not in src else 'class Mid')[0])
+        f0 = fresh['Base'].__schema__['x'].value
+        rec.case(cid + 'base-field-unchanged', key, fb == f0 and R(fb) == R(f0),
+                 f'field x of Base is {R(fb)} after the subclass was declared; before: {R(f0)}',
+                 fit(head + src.split('class Child' if 'class Mid' not in src else 'class Mid')[0] +
+                     "import copy\nf0 = copy.deepcopy(Base.__schema__['x'].value)\n" + decl +
+                     "assert Base.__schema__['x'].value == f0, Base.__schema__['x'].value\n", key))
+        # a value of the field of the subclass is accepted by the field of the base.
+        bad = set()
+        for y in list(dict.fromkeys([x] + pool)):
+          if not holds(fx, y) or acc_live(fb, y)[0]:
+            continue
+          # (named apart from the input classes of the extension drivers.)
+          tag = none_kind(diag(a, ev(y)), a) + '-of-base-field'
+          if tag in bad:
+            continue
+          bad.add(tag)
+          rec.case(cid + 'field-narrower/' + tag, key + (y,), False,
+                   f'field x of Child is {R(fx)}: it accepts {y}, which the field of Base '
+                   f'{R(fb)} rejects',
+                   fit(pre(ann, x, y) + 'import typing\n' + decl +
+                       f"assert not (ok and acc(Child.__schema__['x'].value, {y}) and "
+                       f"not acc(Base.__schema__['x'].value, {y}))\n", key))
+        if not bad:
+          rec.case(cid + 'field-narrower', key, True)
+        # ... and so is the value a Child carries by default.
+        if not bad and not is_missing(fx.default) and not has_missing(fx.default):
+          try:
+            got = ns['Child']().sym_getattr('x')
+            try:
+              fb.apply(copy.deepcopy(got))
+              ok, msg = True, ''
+            except Exception as ex:  # pylint: disable=broad-except
+              ok, msg = False, (f'Child().x is {R(got)}, which the field of Base {R(fb)} '
+                                f'rejects: {type(ex).__name__}: {ex}')
+            icid = cid + 'instance-default-accepted-by-base'
+            if not ok:      # (the input class of the rejection: one defect, one id.)
+              try:
+                icid = (cid + 'field-narrower/' + none_kind(diag(a, plain(got)), a) +
+                        '-of-base-field')
+              except Exception:  # pylint: disable=broad-except
+                pass
+            rec.case(icid, key, ok, msg,
+                     fit(head + decl + "import copy\nif ok:\n  v = Child().sym_getattr('x')\n"
+                         "  Base.__schema__['x'].value.apply(copy.deepcopy(v))\n", key))
+          except Exception:  # pylint: disable=broad-except
+            pass                 # (Child() needs further arguments.)
+        # the field of the base is compatible with it.
+        if not has_transform(a) and not has_regex(a):
+          try:
+            comp = fb.is_compatible(fx)
+          except Exception as ex:  # pylint: disable=broad-except
+            comp = f'{type(ex).__name__}: {ex}'
+          rec.case(cid + f'base-field-compatible/of-{k}', key, comp is True,
+                   f'field x of Child is {R(fx)}; Base field {R(fb)}.is_compatible: {comp}',
+                   fit(head + decl + "assert not ok or Base.__schema__['x'].value.is_compatible("
+                       "Child.__schema__['x'].value)\n", key))
+  rec.scope = (f'{len(anns)} annotations ({len(py_annotations())} Python / typing annotations, the '
+               f'others value specs of every class incl. frozen / noneable / transform and '
+               f'{n_random(tier, 6, 80)} seeded random ones) x the default candidates of each '
+               f'(rejected values per kind, boundary values, held and converted values) through '
+               f'{len(_DERIVED)} ways of deriving a spec from annotation + default and '
+               f'{len(_OVERRIDES)} class layouts with a class attribute for an inherited field: '
+               f'{n_decl} declarations, {n_spec} derived specs, {n_over} subclasses')
+  return rec.result()
+
+
+DRIVERS = [drv_apply, drv_compat, drv_extend, drv_extend_transform, drv_schema, drv_derived]
 
 
 def replay(rec):
